@@ -361,6 +361,10 @@ def rewireKw (k : Ident) (src : Src) (s : Site) : Site :=
 /-- keyword `k` no longer passed -/
 def dropKw (k : Ident) (s : Site) : Site := { s with kwargs := s.kwargs.filter fun kv => kv.1 ≠ k }
 
+/-- the wiring with the `__init__` statements of class `c` rewritten by `f` -/
+def mapInit (w : Wiring) (c : CName) (f : List InitStmt → List InitStmt) : Wiring :=
+  { w with classes := w.classes.map fun cd => if cd.name = c then { cd with init := f cd.init } else cd }
+
 /-- the certificate computed for `w` is rejected -/
 def rejects (w : Wiring) : Bool := !check w (canonObjs w)
 
